@@ -43,9 +43,22 @@ def run(eng, rep, tier):
                   "`non-empty` is answered under a test on FINAL", "is_empty answers False without testing FINAL", summ,
                   site=site_of(prog, fi, fi.node))
     fi = prog.method("EpsilonNFA", "is_empty")
-    ok, why, info = is_worklist_closure(fi.node)
-    ob.decide("R10a", "C04.1", fi, "is_empty-worklist", ok, "reachability by a visited-set worklist",
-              "is_empty is not a closure worklist: " + why, None, site=site_of(prog, fi, fi.node))
+    summ = interp.run_entry(fi, ENFA)
+    tests = [ev for ev in summ.events if ev.kind == "member" and ev.recv is not None and FINAL() in ev.recv.alias]
+    tests += [ev for ev, _ in calls(summ, "is_final_state", own=True)]
+    from .flow import may_be_element_of
+    TRANS = ("self", ("_transition_function", "_transitions"))
+    for role, pred in (("start-states", lambda ev: may_be_element_of(ev.args[0] if ev.args else None, START())),
+                       ("symbol-successors", lambda ev: may_be_element_of(ev.args[0] if ev.args else None, TRANS)
+                        and DELTA_SYM() in arg_deps(ev, 0)),
+                       ("epsilon-successors", lambda ev: may_be_element_of(ev.args[0] if ev.args else None, TRANS)
+                        and DELTA_EPS() in arg_deps(ev, 0))):
+        ob.decide("R1", "C04.1", fi, "finality-tested-on-" + role, any(pred(ev) for ev in tests),
+                  "the finality test is applied to the " + role,
+                  "is_empty never tests the %s for finality (an accepted word ending there is missed)" % role, summ,
+                  site=(tests[0].site.to_json() if tests else site_of(prog, fi, fi.node)))
+    ob.worklist("C04.1", fi, "is_empty-worklist", "reachability by a visited-set worklist",
+                "is_empty is not a closure worklist")
 
     # -------------------------------------------------------------- is_deterministic
     fi = prog.method("EpsilonNFA", "is_deterministic")
@@ -91,6 +104,17 @@ def run(eng, rep, tier):
         ob.decide("R1", "C04.3", fi, "is_acyclic-both-answers:" + label, consts == {True, False}, "both answers reachable",
                   "is_acyclic can only answer %s" % sorted(consts), summ, site=site_of(prog, fi, fi.node))
 
+    # per-path visited sets: every pushed (state, visited) pair carries its own copy of the path set
+    fa = prog.method("EpsilonNFA", "is_acyclic")
+    sa_ = interp.run_entry(fa, ENFA)
+    pushes = [ev for ev in sa_.events if ev.kind == "write" and ev.wkind in ("mutate:append", "mutate:appendleft")
+              and ev.value is not None and ev.value.items is not None and len(ev.value.items) == 2]
+    shared = [ev for ev in pushes if any(l[1] and l[1][-1] == "[]" for l in ev.value.items[1].alias)]
+    ob.decide("R8b", "C04.3", fa, "path-set-copied-per-push", bool(pushes) and not shared,
+              "every pushed successor gets its own copy of the path's visited set (%d pushes)" % len(pushes),
+              "a successor is pushed with the visited set of the popped path itself: sibling successors share one set and "
+              "a later sibling sees states visited by an earlier one (a DAG is reported cyclic)", sa_,
+              site=(shared[0].site.to_json() if shared else site_of(prog, fa, fa.node)))
     # -------------------------------------------------------------- get_accepted_words
     for recv_q, fi, summ in receivers(eng, "EpsilonNFA", "get_accepted_words"):
         label = prog.classes[recv_q].name
